@@ -570,10 +570,14 @@ func fsOne(tr *tracer.T, seed int64, c *fsCase) int {
 		abMsg = ab.Msg + " " + ab.Err
 	}
 	tr.Emit(tracer.Ev{"e": "done", "case": c.Id, "err": runErr != nil, "errmsg": fmt.Sprint(runErr), "abort": ab != nil, "abortmsg": abMsg, "panic": pan,
-		"conns": len(seenConn), "took_ms": took.Milliseconds(), "scripts_loaded": len(srv.Scripts())})
+		"conns": len(seenConn), "took_ms": took.Milliseconds(), "scripts_loaded": len(srv.Scripts()), "script_db": fsScriptDb})
 	// final keyspace against the source's logical values
 	snap := srv.Snapshot()
 	end := time.Now().UnixNano() / 1e6
+	legit := map[string]bool{}
+	for _, k := range keys {
+		legit[fmt.Sprintf("%d/%s", k.destDb, k.destKey)] = true
+	}
 	for _, k := range keys {
 		got, present := snap[k.destDb][k.destKey]
 		pre, hadPre := preSnap[k.destDb][k.destKey]
@@ -594,7 +598,8 @@ func fsOne(tr *tracer.T, seed int64, c *fsCase) int {
 		for d, ks := range snap {
 			for kk := range ks {
 				if (kk == k.destKey || kk == k.e.Key) && !(d == k.destDb && kk == k.destKey) {
-					if _, wasPre := preSnap[d][kk]; !wasPre {
+					_, wasPre := preSnap[d][kk]
+					if !wasPre && !legit[fmt.Sprintf("%d/%s", d, kk)] {
 						elsewhere++
 					}
 				}
@@ -611,6 +616,9 @@ func init() { register("fs", fsRun) }
 
 // fsRunIncr pushes the same keys through the incremental path: SELECT / SET commands (plus script and
 // internal commands in assorted letter case) decoded by the real parser, batched by the real sender.
+// database selected on the source when the script commands of the last incremental scenario were issued
+var fsScriptDb = 0
+
 func fsRunIncr(c *fsCase, keys []*fsSrcKey, scripts [][]byte, addr string, seed int64) (*abortInfo, string) {
 	rnd := rand.New(rand.NewSource(seed + int64(c.Id)))
 	var stream []byte
@@ -637,6 +645,7 @@ func fsRunIncr(c *fsCase, keys []*fsSrcKey, scripts [][]byte, addr string, seed 
 	for _, sc := range scripts {
 		stream = append(stream, respCmd(mix("script"), mix("load"), string(sc))...)
 	}
+	fsScriptDb = cur
 	stream = append(stream, respCmd(mix("opinfo"), "x")...)
 	conf.Options.SenderCount = 3
 	conf.Options.SenderSize = 1 << 30
